@@ -303,6 +303,16 @@ func init() {
 		Body: c06Body, Real: real, Stubs: stubs,
 	})
 	Register(&Scenario{
+		Prop: "C06", Name: "close-with-clock-jumps",
+		Setup: func(r *Run) simrt.Config {
+			c := BaseConfig()
+			c.Horizon = 10 * time.Minute
+			c.ClockJumps, c.JumpMax, c.JumpWithin = 3, 3*time.Second, 600
+			return c
+		},
+		Body: c06Body, Real: real, Stubs: stubs,
+	})
+	Register(&Scenario{
 		Prop: "C06", Name: "close-points-fine",
 		Setup: func(r *Run) simrt.Config {
 			c := BaseConfig()
